@@ -17,7 +17,8 @@ EXTENDS Naturals, Sequences, FiniteSets, TLC, Json, IOUtils, SequencesExt
 CONSTANTS N,         \* [Endpoint -> Nat] messages the application hands to the layer at each endpoint
           R,         \* max_retries_per_message
           Faults,    \* total budget of network faults (drop / duplicate)
-          Retries    \* [Endpoint -> BOOLEAN] does the endpoint's loop call maybe_retry()
+          Retries,   \* [Endpoint -> BOOLEAN] does the endpoint's loop call maybe_retry()
+          MaxAges    \* how often "a long time passes" (Age) may happen
 
 Endpoint == {"ctrl", "exec"}
 Peer(e) == IF e = "ctrl" THEN "exec" ELSE "ctrl"
@@ -31,9 +32,10 @@ VARIABLES
   raised,     \* [Endpoint -> BOOLEAN] maybe_retry raised ("retried too many times")
   sends,      \* [Endpoint -> [idx -> Nat]] ghost: how often the data frame was put on the wire
   faults,
+  ages,       \* how often a long time has passed (model bound MaxAges)
   last
-vars == <<sidx, inflight, net, acked, delivered, raised, sends, faults, last>>
-view == <<sidx, inflight, net, acked, delivered, raised, sends, faults>>
+vars == <<sidx, inflight, net, acked, delivered, raised, sends, faults, ages, last>>
+view == <<sidx, inflight, net, acked, delivered, raised, sends, faults, ages>>
 
 Count(b, f) == IF f \in DOMAIN b THEN b[f] ELSE 0
 Put(b, f)   == [g \in DOMAIN b \cup {f} |-> Count(b, g) + (IF g = f THEN 1 ELSE 0)]
@@ -45,7 +47,7 @@ Init ==
   /\ sidx = [e \in Endpoint |-> 0] /\ inflight = [e \in Endpoint |-> Empty]
   /\ net = [e \in Endpoint |-> Empty] /\ acked = [e \in Endpoint |-> {}]
   /\ delivered = [e \in Endpoint |-> <<>>] /\ raised = [e \in Endpoint |-> FALSE]
-  /\ sends = [e \in Endpoint |-> Empty] /\ faults = 0 /\ last = <<"Init">>
+  /\ sends = [e \in Endpoint |-> Empty] /\ faults = 0 /\ ages = 0 /\ last = <<"Init">>
 
 \* ReliableSender.send: the application hands message sidx[e] to the layer
 Send(e) ==
@@ -56,7 +58,7 @@ Send(e) ==
      /\ sends' = [sends EXCEPT ![e] = Put(@, i)]
      /\ sidx' = [sidx EXCEPT ![e] = i + 1]
      /\ last' = <<"Send", e, i>>
-  /\ UNCHANGED <<acked, delivered, raised, faults>>
+  /\ UNCHANGED <<acked, delivered, raised, faults, ages>>
 
 \* maybe_retry: records in idx order; resend, refresh, decrement; raise at the first record whose budget is spent
 Stale(infl) == {i \in DOMAIN infl : infl[i].stale}
@@ -91,26 +93,34 @@ Iter(e, f) ==
         /\ sends' = [sends EXCEPT ![e] = PutAll(@, ro.resent)]
         /\ raised' = [raised EXCEPT ![e] = ro.raises]
         /\ last' = <<"Iter", e, f, ro.raises>>
-  /\ UNCHANGED <<sidx, faults>>
+  /\ UNCHANGED <<sidx, faults, ages>>
 
 \* the resend grace elapses (one clock for everybody)
 Tick ==
   /\ \E e \in Endpoint : \E i \in DOMAIN inflight[e] : ~inflight[e][i].stale
   /\ inflight' = [e \in Endpoint |-> [i \in DOMAIN inflight[e] |-> [inflight[e][i] EXCEPT !.stale = TRUE]]]
   /\ last' = <<"Tick">>
+  /\ UNCHANGED <<sidx, net, acked, delivered, raised, sends, faults, ages>>
+
+\* a long time passes (a minute: far beyond every grace period and beyond the whole retry budget): nothing may be forgotten
+Age ==
+  /\ ages < MaxAges
+  /\ ages' = ages + 1
+  /\ inflight' = [e \in Endpoint |-> [i \in DOMAIN inflight[e] |-> [inflight[e][i] EXCEPT !.stale = TRUE]]]
+  /\ last' = <<"Age">>
   /\ UNCHANGED <<sidx, net, acked, delivered, raised, sends, faults>>
 
 Drop(e, f) == /\ faults < Faults /\ Count(net[e], f) > 0
               /\ net' = [net EXCEPT ![e] = Take(@, f)] /\ faults' = faults + 1 /\ last' = <<"Drop", e, f>>
-              /\ UNCHANGED <<sidx, inflight, acked, delivered, raised, sends>>
+              /\ UNCHANGED <<sidx, inflight, acked, delivered, raised, sends, ages>>
 Dup(e, f)  == /\ faults < Faults /\ Count(net[e], f) > 0
               /\ net' = [net EXCEPT ![e] = Put(@, f)] /\ faults' = faults + 1 /\ last' = <<"Dup", e, f>>
-              /\ UNCHANGED <<sidx, inflight, acked, delivered, raised, sends>>
+              /\ UNCHANGED <<sidx, inflight, acked, delivered, raised, sends, ages>>
 
 Frames == {<<"none">>} \cup {<<k, i>> : k \in {"data", "ack"}, i \in 0..3}
 Next == \/ \E e \in Endpoint : Send(e)
         \/ \E e \in Endpoint, f \in Frames : Iter(e, f)
-        \/ Tick
+        \/ Tick \/ Age
         \/ \E e \in Endpoint, f \in Frames : Drop(e, f)
         \/ \E e \in Endpoint, f \in Frames : Dup(e, f)
 Spec == Init /\ [][Next]_vars
